@@ -34,6 +34,9 @@ def random_admg(rng, n, hostile=None, p_di=None, p_bi=None):
     if hostile == "names_odd" and n <= 9:
         # names a biologist would use: not identifiers, with blanks, dashes, digits first, mixed case
         nm = ["IL-6", "STAT3", "HLA DR", "TNF", "NF-kB", "9p21", "p53", "Variable", "a b"][:n]
+        if rng.random() < 0.4:
+            # names that differ by leading zeros or by the length of a trailing number only
+            nm = ["L1", "L01", "X2", "X10", "L001", "X02", "L10", "X1", "L2"][:n]
     order = nm[:]
     rng.shuffle(order)  # topological order
     p_di = rng.choice(DENSITIES) if p_di is None else p_di
